@@ -82,10 +82,10 @@ RULE = (
     "(S,\"v1\") in thorough]} x all six relations + 15 bool/string pairs x {=,!=}; depth<=1: a, !a, a&&b, a||b (all "
     "ordered pairs of distinct atoms), all of R; depth 2 quick: !r for all r, {r op c, c op r} for 14 key relations x 4 partners, "
     "!(a op b), (a op b) op c over small atom sets; depth 2 thorough: x op y for all ordered pairs with one side in A0+!A0+R and "
-    "the other in A0+!A0+key relations+{MIR_B, MIR_I<3} (A0 without M on this side), !(x) for every depth-1 x. Each E x 4 program groups x targets {chipa,chipb} x all "
+    "the other in A0+!A0+key relations+{MIR_B, MIR_I<3} (A0 without M on this side), !(x) for every depth-1 x. Each E x 3 program groups (+ reverse, see above) x targets {chipa,chipb} x all "
     "assignments of the user-settable options that E (transitively) mentions (bool {n,y}, N {1,2,3,4}, S {v1,chipa,chipb,zz}; <=64). "
     "twice-defined family (both tiers): t, !t, t=y, t!=U2, {t op c, c op t} x partners {U2,IDF_TARGET_CHIPA,!IDF_TARGET_CHIPB,SOC_UNDEF}, "
-    "3 negated/mixed forms for t in {TW_PL,TW_LP,TW_TH,TW_HT,TW_UD,TW_HH}, ordered pairs of the first 4. Every E is also placed in the "
+    "3 negated/mixed forms for t in {TW_PL,TW_LP,TW_TH,TW_HT,TW_UD,TW_HH}, ordered pairs of the first 4. Every E of the QUICK tier is also placed (in both tiers) in the "
     "'reverse' group (target of select/set/set default depends on E). several-choices family: 8 visibilities ^ 2 x 3 naming patterns + "
     "4 visibilities ^ 3 x 7 naming patterns, + 3 x 2 menu-titled-like-an-option programs. "
     "special menu names (both tiers): names = string-list constants EXCLUDE*/SKIP*/IGNORE*/HIDDEN* of gen_kconfig_doc + the 2 documented "
@@ -906,8 +906,11 @@ def items(tier: str, seed: int):
         out.append({"group": group, "estr": desc, "files": kgen.render(prog), "vars": variables, "renames": renames})
     for group, desc, prog, variables, renames in special_programs(tier):
         out.append({"group": group, "estr": desc, "files": kgen.render(prog), "vars": variables, "renames": renames})
+    quick_set = set(expressions("quick"))
     for E in expressions(tier):
         for g in GROUPS:
+            if g == "reverse" and E not in quick_set:
+                continue  # the reverse group ranges over the quick-tier expressions in both tiers (see RULE)
             prog, variables, renames = build_program(g, E)
             out.append({"group": g, "estr": kgen.expr_str(E), "files": kgen.render(prog), "vars": variables, "renames": renames})
     return out
